@@ -670,6 +670,10 @@ def directed() -> List[Dict[str, Any]]:
         {"name": "login-by-stopped-client", "to": 3, "mr": 3, "steps": [["svc", "a"], L("a", "b"), ["svc", "a"], C("a", "b")]},
         {"name": "logoff-by-stopped-client", "to": 3, "mr": 3, "steps": [L("a", "b"), ["svc", "a"], O("a", "b")]},
         {"name": "local-command-bad-credentials", "to": 3, "mr": 3, "steps": [["local", "a", False, "ok"]]},
+        # an account that is disabled while its local session is still open
+        {"name": "local-command-account-disabled-in-between", "to": 5, "mr": 3,
+         "steps": [["local2", "a", "ok"], ["local2", "a", "ok"], ["disable2", "a"], ["local2", "a", "ok"], T, ["local2", "a", "ok"],
+                   ["local", "a", True, "ok"]]},
         {"name": "local-command-terminal-stopped", "to": 3, "mr": 3, "steps": [["svc", "a"], ["local", "a", True, "ok"]]},
         {"name": "mutual-logins-command", "to": 3, "mr": 3, "steps": [L("b", "a"), L("a", "b"), C("a", "b")]},
         {"name": "mutual-logins-logoff", "to": 3, "mr": 3, "steps": [L("b", "a"), L("a", "b"), O("a", "b"), C("b", "a")]},
@@ -701,7 +705,8 @@ def run_steps(steps: List[List[Any]], timeout: int, max_remote: int, avoid: bool
         usm.remote_session_timeout_steps = timeout
         usm.local_session_timeout_steps = timeout
         usm.max_remote_sessions = max_remote
-        for tail in (["service", "user-manager", "add_user", "u1", "pw", False], ["service", "user-manager", "disable_user", "u1"]):
+        for tail in (["service", "user-manager", "add_user", "u1", "pw", False], ["service", "user-manager", "disable_user", "u1"],
+                     ["service", "user-manager", "add_user", "u2", "pw2", False]):
             if w.req(m, *tail).status != "success":
                 raise RuntimeError("harness: could not prepare the disabled account")
     _CUR[0] = w
@@ -770,6 +775,12 @@ def run_steps(steps: List[List[Any]], timeout: int, max_remote: int, avoid: bool
                     continue   # divergence: send_local_command answers success when nothing was executed
                 u, p = creds(good)
                 w.req(x, "service", "terminal", "send_local_command", u, p, {"command": command(mode)})
+            elif kind == "local2":
+                # a second, ordinary account (enabled at first) runs a local command; "disable2" disables it in between
+                _, x, mode = st
+                w.req(x, "service", "terminal", "send_local_command", "u2", "pw2", {"command": command(mode)})
+            elif kind == "disable2":
+                w.req(st[1], "service", "user-manager", "disable_user", "u2")
             elif kind == "tick":
                 game.pre_timestep()
                 game.advance_timestep()
